@@ -25,7 +25,7 @@ var labelSetsPool = []map[string]string{
 	{"job": "b", "inst": "i2"},
 	{"job": "a", "inst": "i2", "zone": "y"},
 	{"job": "b", "inst": "i1", "zone": "x"},
-	{"job": "a", "inst": "i0", "zone": "x"}, // same (job,inst) as the first one: many-to-one shapes
+	{"job": "a", "inst": "i0", "zone": "x"},   // same (job,inst) as the first one: many-to-one shapes
 	{"job": "ab", "inst": "i1", "zone": "xy"}, // values that contain other values: regex anchoring
 }
 
